@@ -4,10 +4,12 @@ package c04
 
 import (
 	"encoding/json"
+	"errors"
 	"fmt"
 	"os"
 	"sort"
 	"strings"
+	"sync/atomic"
 	"syscall"
 	"time"
 
@@ -330,9 +332,15 @@ func runCase(w *harness.W, c caseT) {
 		})
 	case "panic":
 		n := 0
+		var fired int32
 		verifhook.Arm("vaxis.handleSequence", func() {
 			n++
 			if n == c.PanicAt+1 {
+				atomic.StoreInt32(&fired, 1)
+				if c.PanicAt%2 == 1 {
+					// a panic value that is an error (as runtime errors are)
+					panic(errors.New(panicMarker))
+				}
 				panic(panicMarker)
 			}
 		})
@@ -347,6 +355,18 @@ func runCase(w *harness.W, c caseT) {
 			case <-end:
 			}
 			break
+		}
+		if atomic.LoadInt32(&fired) == 1 {
+			// the panic was raised on the input goroutine ten seconds ago
+			// and the process is still here: it was swallowed. Nobody reads
+			// input any more; was the terminal at least restored?
+			var now map[string]string
+			con.With(func() { now = t.ModeTable() })
+			dump := harness.AllStacks()
+			if d := diffTables(prior, now); len(d) > 0 && !strings.Contains(dump, "vaxis.(*Vaxis).openTty.func1") {
+				w.Violation("not-restored:panic-swallowed:"+strings.SplitN(d[0], ":", 2)[0], "the input goroutine panicked (injected, with a value that is no error) and ended without restoring the terminal or passing the panic on: the process lives on without input: "+strings.Join(d, "; "), c, strings.Join(d, "; "), "the terminal is restored and the panic propagates")
+				return
+			}
 		}
 		goto hung
 	}
